@@ -8,6 +8,7 @@ from nbsym import engine as E
 
 ID = "C12"
 TITLE = "REF/ALT haplotype strings -> per-SNV integer alleles -> strings is the identity; recovered SNV positions are the polymorphic subset of SNVPOS; first-appearance allele numbering with REF = 0; haplotypes rendered by assemble are re-read by call/call-exact with the same REF/ALT"
+TECHNIQUE = "solver-driven exhaustive enumeration of bounded records through the repo's shadow-loaded source (string code realises symbolic values); each realised record checked against an independent oracle and replayed on the real module"
 ENCODED = ["mchap.io.loci.LocusPrior.from_variant_record", "mchap.io.loci.LocusPrior.encode_haplotypes", "mchap.io.loci.Locus._template_sequence",
            "mchap.io.loci.Locus.format_haplotypes", "mchap.encoding.character.transcode.as_allelic", "mchap.encoding.integer.transcode.as_characters"]
 STUBS = ["pysam.VariantRecord -> duck-typed record (ref, alts, info, chrom/start/stop/id)"]
